@@ -135,7 +135,7 @@ class Ctx:
         self.cov["traces_validated_against_impl"] += len(events)
         return [(b[0], b[1]) for b in bad]
 
-    def oracle(self, module, cfg, cases, extra_env=None, timeout_s=1800, shards=1, tag=""):
+    def oracle(self, module, cfg, cases, extra_env=None, timeout_s=1800, shards=1, tag="", tolerant=False):
         """M3: cases -> TLC evaluates the specification -> list of result records (sharded over JVMs)."""
         if not cases:
             return []
@@ -165,11 +165,18 @@ class Ctx:
             t.start()
         for t in th:
             t.join()
-        if errs:
+        if errs and not tolerant:
             raise Machinery("\n".join(errs))
         merged = []
-        for r in results:
-            merged.extend(r)
+        failed = []
+        for k, r in enumerate(results):
+            if r is None:
+                failed.append(cases[k::shards])
+            else:
+                merged.extend(r)
+        if tolerant:
+            self.cov["tlc_runs"].append(dict(module=module, cfg=cfg, oracle_cases=len(cases), shards=shards, failed_shards=len(failed)))
+            return merged, failed, errs
         self.cov["tlc_runs"].append(dict(module=module, cfg=cfg, oracle_cases=len(cases), shards=shards))
         return merged
 
